@@ -66,6 +66,7 @@ def check(ctx):
     # jet signatures are written with the builtin alias names (Gej, Message64, ...): each has to be recognisable in source text
     from . import c04, c16
     c04.r_grammar_words(ctx, 'R13.7', order=False)
+    c04.r_reviewed_grammar(ctx, 'R13.8', roots={'jet', 'ty'})
     c16.r_name_tables(ctx, 'R13.6', printer=False)   # parser table = grammar alternatives (the printer side belongs to C15/C16)
     rid = 'R13.1'
     ctx.rule(rid, 'source_type and target_type are total explicit tables over all Elements variants (no default arm, no panic)')
